@@ -740,11 +740,40 @@ func (sy *Symbols) Query(axioms []*Term, assumptions []*Term, goal *Term, wantMo
 		fmt.Fprintf(&b, "(assert %s)\n", a)
 	}
 	if goal != nil {
-		fmt.Fprintf(&b, "(assert (not %s))\n", goal)
+		// a universally quantified goal is skolemised here (the solvers' own treatment of a negated
+		// quantifier carrying a pattern annotation turned out to be much weaker)
+		g := goal
+		for g.op == "forall" && len(g.args) == 1 {
+			for _, bv := range g.bound {
+				fmt.Fprintf(&b, "(declare-const %s %s)\n", bv.String(), bv.sort)
+			}
+			g = g.args[0]
+			if g.op == "!" && len(g.args) > 0 {
+				g = g.args[0]
+			}
+		}
+		fmt.Fprintf(&b, "(assert (not %s))\n", g)
 	}
 	b.WriteString("(check-sat)\n")
 	if wantModel {
 		b.WriteString("(get-model)\n")
 	}
 	return b.String()
+}
+
+// opaqueStride: when set, the offset of element i in an array of multi-slot elements is written
+// stride<N>(i) instead of N*i. The solvers normalise N*(k+1) to N*k+N, after which the term no
+// longer matches an instantiation pattern of the form off+N*?i; an uninterpreted stride function
+// (with the axiom stride<N>(x) = N*x, instantiated per stride term) keeps index terms matchable.
+var opaqueStride bool
+var strideSy *Symbols
+
+func strideOf(x *Term, es int64) *Term {
+	if es == 1 {
+		return x
+	}
+	if _, isLit := x.IsInt(); isLit || !opaqueStride || strideSy == nil {
+		return Mul(x, IntLit(es))
+	}
+	return strideSy.App(fmt.Sprintf("stride%d", es), SInt, x)
 }
